@@ -86,4 +86,36 @@ def unquote (s : Str) : Option Str :=
     | _ => none
   | _ => none
 
+/-! ### other legal spellings of the same string (RFC 8259 §7): any character may be written as a
+`\uXXXX` escape (a surrogate pair above U+FFFF) with hex digits of either case, and `/` as `\/` -/
+
+inductive Spell
+  | min        -- as serde_json writes it
+  | uLower     -- \uxxxx, lower-case hex
+  | uUpper     -- \uXXXX, upper-case hex
+  | solidus    -- `\/` for a slash, otherwise minimal
+  deriving DecidableEq, Repr
+
+def hex4Str (upper : Bool) (n : Nat) : Str :=
+  let hd := fun k => if upper then hexDigitUpper k else hexDigitLower k
+  [hd (n / 4096 % 16), hd (n / 256 % 16), hd (n / 16 % 16), hd (n % 16)]
+
+def escapeCharU (upper : Bool) (c : Char) : Str :=
+  if c.toNat < 0x10000 then '\\' :: 'u' :: hex4Str upper c.toNat
+  else
+    let o := c.toNat - 0x10000
+    ('\\' :: 'u' :: hex4Str upper (0xD800 + o / 0x400)) ++ ('\\' :: 'u' :: hex4Str upper (0xDC00 + o % 0x400))
+
+def spellChar : Spell → Char → Str
+  | .min, c => escapeChar c
+  | .uLower, c => escapeCharU false c
+  | .uUpper, c => escapeCharU true c
+  | .solidus, c => if c = '/' then ['\\', '/'] else escapeChar c
+
+/-- spell `s` taking one choice per character (minimal once the choices run out) -/
+def spellWith : List Spell → Str → Str
+  | _, [] => []
+  | [], c :: cs => escapeChar c ++ spellWith [] cs
+  | sp :: sps, c :: cs => spellChar sp c ++ spellWith sps cs
+
 end Rocfl.Json
